@@ -195,7 +195,7 @@ func runIndent(r *core.Run) {
 			}
 		}
 	}
-	r.Floor("writes of multi-line literals", sites, 8)
+	r.Floor("writes of multi-line literals", sites, 5)
 	// Indenter values are built only by NewIndenter, which unwraps a nested Indenter
 	ni := r.Prog.SSAFunc("", "", "NewIndenter")
 	if ni == nil {
